@@ -373,6 +373,9 @@ struct Decl {
     backends: Vec<(String, String, Option<String>)>,
     activate: bool,
     expect_reject: bool,
+    /// declared buffer_size (-1 absent) and, per UDP listener, the declared max_rx_datagram_size (-1 absent)
+    buffer: i128,
+    udp_rx: Vec<(String, i128)>,
 }
 
 fn s_of(t: &Tok) -> String {
@@ -478,6 +481,36 @@ fn oracle(d: &Decl, ld: &Loaded, pool: &Pool, out: &mut Out) {
         };
         if !ok {
             out.viol("exact-listeners", &format!("declared listener {addr} (protocol {proto}) is not in the state"));
+        }
+    }
+    // documented defaults and clamps, recomputed here from the declaration (doc/configure.md): a UDP listener's
+    // max_rx_datagram_size defaults to 1500 and is clamped to the file's buffer_size (default 16393)
+    let buffer = if d.buffer < 0 { 16393 } else { d.buffer };
+    for (addr, rx) in &d.udp_rx {
+        let a: SocketAddr = addr.parse().unwrap();
+        let want = (if *rx < 0 { 1500 } else { *rx }).min(buffer);
+        if let Some(l) = s.udp_listeners.get(&a) {
+            if l.max_rx_datagram_size as i128 != want {
+                out.viol("documented-default", &format!(
+                    "UDP listener {addr}: max_rx_datagram_size is {} in the state; declared {}, buffer_size {}: documented value min(declared or 1500, buffer_size) = {want}",
+                    l.max_rx_datagram_size, if *rx < 0 { "nothing".to_string() } else { rx.to_string() }, buffer));
+            }
+        }
+    }
+    // nothing a frontend declares about its certificate is dropped: the stored certificate of (address, fingerprint)
+    // carries the TLS versions and the chain of every AddCertificate the file generated for it
+    for m in &ld.msgs {
+        if let Some(RequestType::AddCertificate(c)) = &m.content.request_type {
+            let a: SocketAddr = c.address.into();
+            let Ok(fp) = c.certificate.fingerprint() else { continue };
+            if let Some(stored) = s.certificates.get(&a).and_then(|b| b.get(&fp)) {
+                if stored.versions != c.certificate.versions || stored.certificate_chain != c.certificate.certificate_chain {
+                    out.viol("certificate-declaration-dropped", &format!(
+                        "{}: the file declares the certificate {} on {} with TLS versions {:?}, the state keeps {:?} for it (declared by another frontend of that address)",
+                        m.id, fp, a, c.certificate.versions, stored.versions));
+                    break;
+                }
+            }
         }
     }
     let act = |b: bool| b == d.activate;
@@ -600,10 +633,14 @@ fn run(case: &Case, out: &mut Out) {
             }
             "g" => {
                 d.activate = a[0].n() != 0;
+                d.buffer = a[2].n();
                 out.obs(&[]);
             }
             "l" => {
                 d.listeners.push((s_of(&a[0]), a[1].n()));
+                if a[1].n() == 3 {
+                    d.udp_rx.push((s_of(&a[0]), a[12].n()));
+                }
                 out.obs(&[]);
             }
             "c" => {
